@@ -522,6 +522,12 @@ def r10(ctx, rep):
     rep.check(n_sites >= 1, "sites", f"expected the take_to_define() site of compile_relation_instance, found {n_sites}")
 
 
+def r11(ctx, rep):
+    # UNION vs UNION ALL, EXCEPT vs INTERSECT: which rows the set operation returns
+    import C07
+    rep.borrowed(C07.r16, ctx, "C01.R11", "append keeps duplicates (ALL) and each set transform becomes the operator of its name")
+
+
 def run(ctx, rep):
-    for r in (r1, r2, r3, r4, r5, r6, r7, r8, r9, r10):
+    for r in (r1, r2, r3, r4, r5, r6, r7, r8, r9, r10, r11):
         rep.guard(r, ctx)
